@@ -18,3 +18,10 @@ package crypto
 //@   trusted calls interface methods Raw/Type of the key
 //@   ensures ret1 == nil ==> content(ret0) == pubKeyPB(rawPub(k))
 //@   fresh ret0
+
+// C02: the Ed25519 implementation of the key interfaces, on its own fields.
+//@ func (*Ed25519PublicKey).Verify
+//@   ensures ret1 == nil && ret0 == edVerify(k.k, data, sig)
+
+//@ func (*Ed25519PrivateKey).Sign
+//@   ensures ret1 == nil && content(ret0) == edSign(k.k, msg)
